@@ -193,6 +193,17 @@ def templates():
     p = [S(), node("union", ups=[1, 4]), node("unique", f="mod2", m=0, b1=True, ups=[2]),
          node("map", f="inc", ups=[3])]; _sink(p, 4); _sink(p, 2)
     T.append(("feedback_unique_mod2", p))
+    # feedback through stateful nodes (re-entrant update): accumulate, slice, sliding_window
+    p = [S(), node("union", ups=[1, 5]), node("accumulate", f="add", lits=[["i", 0]], ups=[2]),
+         node("filter", f="pos", ups=[3]), node("filter", f="lt2", ups=[4])]; _sink(p, 3)
+    T.append(("feedback_accumulate", p))
+    p = [S(), node("union", ups=[1, 5]), node("accumulate", f="add", ups=[2]),
+         node("filter", f="pos", ups=[3]), node("filter", f="lt2", ups=[4])]; _sink(p, 3); _sink(p, 2)
+    T.append(("feedback_accumulate_nostart", p))
+    p = [S(), node("union", ups=[1, 6]), node("unique", f="id", m=0, b1=True, ups=[2]),
+         node("slice", n=0, m=-1, k=2, ups=[3]), node("map", f="inc", ups=[4]),
+         node("filter", f="lt2", ups=[5])]; _sink(p, 4); _sink(p, 3)
+    T.append(("feedback_slice", p))
     # flatten / pluck behind joins
     p = [S(), S(), node("zip", ups=[1, 2]), node("flatten", ups=[3]), node("pluck", lits=[1, 0], b1=True, ups=[3])]
     _sink(p, 4); _sink(p, 5)
